@@ -13,9 +13,15 @@ Two parts (DESIGN.md §5 C18):
   num.py return site that produced it; sites listed in /verif/known_findings_c18.json are reported
   as KNOWN-FINDING, anything else is a VIOLATION.
 
-The unbounded algebraic claim is NOT proved: only the tables are theorems, the algebra is validated
-per answer.  The known-findings file is never written at check time (see `regenerate_known`, an
-implementation-time tool run by hand).
+* the `%` operator as a whole (`int/Add/Mul/Div/Exp.__mod__`, `find_period`, `exp_mod_special_cases`) is
+  modelled in Lean (`modE`, BB/Model/NumModTree.lean; the literal tables come from the generated
+  BB/Generated/NumTablesData.lean) and proved to return only true residues for every tree
+  (`modE_correct_partial`, BB/Props/C18.lean); every `a % m` of the generated stream is also
+  compared, real outcome against model (`nummod` correspondence, `nummod_pass`).
+
+The unbounded algebraic claim is NOT proved for the other operators: only the tables and `%` are
+theorems, the rest of the algebra is validated per answer.  The known-findings file is never written
+at check time (see `regenerate_known`, an implementation-time tool run by hand).
 """
 import collections
 import json
@@ -44,7 +50,8 @@ TIERS = {"quick": (3200, 8, 0), "thorough": (40000, 16, 0),
          "deep": (200000, 80, 100)}
 MY_LEAN_FILES = ["BB/Generated/NumTables.lean", "BB/Lemmas/PowMod.lean", "BB/Model/NumEval.lean",
                  "BB/Audit/C18.lean", "BB/Driver/OpsPy.lean", "BB/Model/NumMod.lean", "BB/Lemmas/NumMod.lean",
-                 "BB/Props/C18.lean", "BB/Audit/C18h.lean"]
+                 "BB/Props/C18.lean", "BB/Audit/C18h.lean", "BB/Generated/NumTablesData.lean",
+                 "BB/Model/NumModTree.lean", "BB/Lemmas/NumModTree.lean"]
 
 
 def py_env():
@@ -265,6 +272,7 @@ def judge(bases):
     total = 0
     samples = []
     protocol_errors = []
+    nummod = {"cases": 0, "mismatches": [], "mismatch_count": 0, "outcomes": collections.Counter()}
     for base in bases:
         side = json.load(open(base + ".json"))
         lines = open(base + ".cases").read().split("\n")
@@ -277,6 +285,7 @@ def judge(bases):
         if not (len(ck) == len(lines) == len(out)):
             raise RuntimeError(f"sidecar / cases / driver length mismatch for {base}")
         total += len(lines)
+        nummod_pass(lines, nummod)
         if len(samples) < 6:
             samples += [lines[len(lines) // 3], lines[2 * len(lines) // 3]]
         for i, (l, o) in enumerate(zip(lines, out)):
@@ -301,7 +310,34 @@ def judge(bases):
                 protocol_errors.append({"case": l, "driver": o})
     return {"stats": stats, "verdicts": verdicts, "bads": bads, "pairs": len(distinct_pairs),
             "judged": len(distinct_judged), "total": total, "samples": samples,
-            "protocol_errors": protocol_errors}
+            "protocol_errors": protocol_errors, "nummod": nummod}
+
+
+def nummod_pass(lines, acc):
+    """correspondence of the whole `%` operator: for every `numcheck mod` case the REAL outcome of
+    `a % m` (the value, or that it raised) against the Lean model `modE` (driver op `nummod`,
+    BB/Model/NumModTree.lean; proved to return only true residues in BB/Props/C18.lean)."""
+    cases, impl = [], []
+    for l in lines:
+        if not l.startswith("numcheck mod "):
+            continue
+        head, text = l.split(" | ", 1)
+        sa, sb, sr = text.split(" ; ")
+        m = head.split(" ")[2]
+        if not m.isdigit() or int(m) <= 0:
+            continue
+        cases.append(f"nummod {m} | {sa}")
+        impl.append("raise" if sr.startswith("!") else sr)
+    if not cases:
+        return
+    model = core.run_driver(cases)
+    for c, i, mo in zip(cases, impl, model):
+        acc["cases"] += 1
+        acc["outcomes"]["raise" if i == "raise" else "value"] += 1
+        if i != mo:
+            acc["mismatch_count"] += 1
+            if len(acc["mismatches"]) < 20:
+                acc["mismatches"].append({"case": c, "impl": i, "model": mo})
 
 
 SELFTEST = [
@@ -317,6 +353,10 @@ SELFTEST = [
     ("numcheck mul - | / + 1 ^ 3 2 4 ; 4 ; 8", "skip:operand-inexact"),
     ("numcheck mul - | ^ 2 5 ; 3 ; !NotImplementedError", "skip:exception"),
     ("numcheck add - | ^ 2 ^ 2 40 ; 3 ; 1", "skip:toobig"),
+    ("nummod 30 | ^ 2 4", "16"),
+    ("nummod 54 | ^ 2 + 1 ^ 3 4", "52"),               # symbolic exponent 82: literal table of mod 54
+    ("nummod 5 | / + 1 ^ 3 2 4", "raise"),              # inexact Div: assert rem == 0
+    ("nummod 7 | ^ 5 * -2 ^ 2 3", "raise"),             # assert 1 < exp (sign heuristic)
 ]
 
 
@@ -452,6 +492,9 @@ def check(rep, tier, seed, replay):
         "only the literal tables of Exp.__mod__ / exp_mod_special_cases are theorems; the algebra (+ - * // % < == **) "
         "is validated per returned answer on the generated inputs, not proved for all inputs",
         "operands above 6000 bits or with an exponent above 2000 are not generated; values above 400000 bits are skipped by the model",
+        "a % m: proved for all trees about the Lean model modE (modE_correct_partial, hypothesis expsOk: integer exponents >= 1, "
+        "symbolic exponents of value >= 2); model = real code is validated on the generated a % m cases only (nummod "
+        "correspondence: value or raised), with Div den <= 0 and float edge cases above 2^53 modelled by convention",
     ]
     ok_tables, summary = check_tables(rep)
     attach_hand_theorems(rep)
@@ -500,6 +543,13 @@ def check(rep, tier, seed, replay):
                                          "on the operands' integer meanings (Lean `eval`)"})
     for pe in j["protocol_errors"][:5]:
         rep.violation("driver-protocol", pe, found_input=False)
+    nm = j["nummod"]
+    for mm in nm["mismatches"]:
+        rep.violation("correspondence", dict(mm, what="a % m: real tm/num.py against the Lean model modE "
+                                                      "(BB/Model/NumModTree.lean)"), found_input=False)
+    rep.cov["nummod_cases"] = nm["cases"]
+    rep.cov["nummod_correspondence_mismatches"] = nm["mismatch_count"]
+    rep.cov["nummod_outcomes"] = dict(nm["outcomes"])
 
     st = j["stats"]
     judged = j["verdicts"]["ok"] + j["verdicts"]["bad"]
